@@ -54,3 +54,28 @@ Hypothesis pkg_irrelevant : forall p f, load_file (Some p) f = load_file None f.
 Theorem load_paths_agree s f p : convert s = inl (f, p) -> load s = load_from_ir f.
 Proof. intros H. unfold load, load_from_ir. rewrite H. apply pkg_irrelevant. Qed.
 End LoadPaths.
+
+(* ------------------------------------------------------------------ the whole chain of the property *)
+(* source --convert--> IR --print--> Go literal --compile--> IR' --LoadFromIR--> engine   versus   source --Load--> engine *)
+Section Chain.
+Variables (src irfile pkginfo ruleset err : Type).
+Variable convert : src -> irfile * pkginfo + err.
+Variable load_file : option pkginfo -> irfile -> ruleset + err.
+Variable wf_ir : irfile -> Prop.
+Variable print_eval : irfile -> option irfile.     (* evaluate the printed literal *)
+Variable norm : irfile -> irfile.                  (* nil CustomDecls / BundleImports become empty *)
+
+Hypothesis roundtrip : forall f, wf_ir f -> print_eval f = Some (norm f).
+(* the loader only ranges over / takes the length of the two normalised slices (checked on the regenerated use list) *)
+Hypothesis norm_irrelevant : forall pk f, load_file pk (norm f) = load_file pk f.
+Hypothesis pkg_irrelevant : forall p f, load_file (Some p) f = load_file None f.
+
+Theorem precompiled_equals_source s f p :
+  convert s = inl (f, p) -> wf_ir f ->
+  exists f', print_eval f = Some f' /\
+             load src irfile pkginfo ruleset err convert load_file s = load_from_ir irfile pkginfo ruleset err load_file f'.
+Proof.
+  intros Hc Hw. exists (norm f). split; [now apply roundtrip|].
+  unfold load, load_from_ir. rewrite Hc. rewrite norm_irrelevant. apply pkg_irrelevant.
+Qed.
+End Chain.
